@@ -258,6 +258,7 @@ class _ExtractInfo:
         if self._returning_generator is None:
             self._returning_generator = (
                 isinstance(self._parsed_extracted, ast.Module)
+                and bool(self._parsed_extracted.body)
                 and isinstance(self._parsed_extracted.body[0], ast.Expr)
                 and isinstance(self._parsed_extracted.body[0].value, ast.GeneratorExp)
             )
